@@ -5,7 +5,8 @@ or the S-expression conversion is wrong); it is reported as a disagreement of th
 
 kernel_guard(rep, name, requires, fn, cases, ret='str')
   requires : list of logical module names under V (e.g. ['model.Utils'])
-  fn       : Coq expression of type  A -> str   (ret='str')  or  A -> bool  (ret='bool')
+  fn       : Coq expression of type  A -> str   (ret='str' / 'bytes': list N)  or  A -> bool  (ret='bool')
+  prelude  : Coq text placed before the cases (helper definitions that drive a stateful model over an operation list)
   cases    : list of (coq_term_for_argument, expected python str / bool)   - expected = what the OCaml driver returned
 """
 import os
@@ -37,7 +38,7 @@ Definition guard_eqb (a b : list N) : bool :=
 '''
 
 
-def kernel_guard(rep, name, requires, fn, cases, shard=400, ret='str'):
+def kernel_guard(rep, name, requires, fn, cases, shard=400, ret='str', prelude=''):
     """Returns the number of cases the kernel evaluation confirmed.  Disagreements are recorded on rep."""
     if not cases:
         return 0
@@ -45,8 +46,9 @@ def kernel_guard(rep, name, requires, fn, cases, shard=400, ret='str'):
     for lo in range(0, len(cases), shard):
         part = cases[lo:lo + shard]
         body = HEADER % '\n'.join('From V Require Import %s.' % r for r in requires)
-        enc = coq_str if ret == 'str' else coq_bool
-        eqb = 'guard_eqb' if ret == 'str' else 'Bool.eqb'
+        enc = dict(str=coq_str, bytes=coq_bytes, bool=coq_bool)[ret]
+        eqb = 'Bool.eqb' if ret == 'bool' else 'guard_eqb'
+        body += prelude
         body += 'Definition guard_cases := [\n' + ';\n'.join('  (%s, %s)' % (a, enc(e)) for a, e in part) + '].\n'
         body += 'Definition guard_bad := map (fun c => %s (%s (fst c)) (snd c)) guard_cases.\n' % (eqb, fn)
         body += 'Eval vm_compute in (forallb (fun b => b) guard_bad, length guard_bad).\n'
